@@ -333,8 +333,26 @@ class C02(EngineACheck):
                                 t.body_salt = ch.choice(3, "salt")
                                 desc.append(f"{t.name}:neutral-edit={t.body_salt}")
                             elif kind == 3 and prog.tasks[0].params:
-                                prog.main_args = [gen_value(ch, k) for (_, k, _) in prog.tasks[0].params]
-                                desc.append("main-args")
+                                if ch.coin(0.4, "same-number-other-type"):
+                                    # the same numbers as other types (1 -> 1.0 -> 1): equal and
+                                    # equally hashed for Python, different values for the workflow
+                                    def retype(v):
+                                        if isinstance(v, bool):
+                                            return v
+                                        if isinstance(v, int):
+                                            return float(v)
+                                        if isinstance(v, float) and v == int(v):
+                                            return int(v)
+                                        if isinstance(v, (list, tuple)) and type(v) in (list, tuple):
+                                            return type(v)(retype(x) for x in v)
+                                        return v
+
+                                    prog.main_args = [retype(v) for v in prog.main_args]
+                                    out.probe("argument_type_changes")
+                                    desc.append("main-args-retyped")
+                                else:
+                                    prog.main_args = [gen_value(ch, k) for (_, k, _) in prog.tasks[0].params]
+                                    desc.append("main-args")
                             else:
                                 desc.append("no-edit")
                         sess.reload(prog)
